@@ -10,7 +10,7 @@ What C07 demands : 'control-' is the control grid without the final point (N lea
 No solve needed (symbolic shapes); a numeric read-back with sol.sample is shown as well.
 """
 import sys
-sys.path.insert(0, '/tmp/nx_pydeps')   # networkx (pure python copy) for SplineMethod
+sys.path.insert(0, '/verif/pydeps')   # networkx (pure python copy) for SplineMethod
 import numpy as np
 from rockit import Ocp, SplineMethod, MultipleShooting
 
